@@ -132,6 +132,17 @@ class GateDirective:
         return await next_directive(parent_node, argument_definition_node, argument_node, value, ctx)
 
 
+    async def on_post_input_coercion(self, directive_args, next_directive, parent_node, value, ctx):
+        v = await next_directive(parent_node, value, ctx)
+        w = ctx.get("world") if isinstance(ctx, dict) else None
+        fname = directive_args.get("k")       # "<InputType>.<field>"
+        if w is not None and v is not None and fname is not None and fname in w.input_faults:
+            from vt.world import make_exception
+            # the hook of a directive on an INPUT FIELD definition refuses the value (plain or library-derived exception)
+            raise make_exception(getattr(w, "arg_fault_kind", "raise"), "in:%s" % fname)
+        return v
+
+
 class CtxDirective:
     """@vtctx on input fields / arguments: the coerced value depends on the REQUEST context (C15: nothing coerced for one
     request may be served to another)."""
